@@ -146,10 +146,22 @@ class Driver(GenericAdapter):
             out.append(-3)
         return out
 
+    walk_mode = False        # True: the queues live on after an observation (only len and peek are read)
+
     def observe(self, qs, got):
+        if self.walk_mode:
+            # (no copies: copying a queue is not among the promised operations) - what can be read without changing it
+            return {"per_class": [{"len": len(q), "peek": self.dec(q.peek(self.default))} for q in qs]}
         return {"per_class": [{"len": len(q), "drain": self.drain(q)} for q in qs]}
 
     def compare(self, obs, pobs, st):
+        if self.walk_mode:
+            want = {"len": pobs["len"], "peek": pobs["drain"][0] if pobs["drain"] else 77}
+            for (k, f), o in zip(self.kinds, obs["per_class"]):
+                d = core.first_diff(o, want)
+                if d:
+                    return "%s@%s%s" % (d, k, "" if f is None else "/factor%s" % f)
+            return None
         for (k, f), o in zip(self.kinds, obs["per_class"]):
             d = core.first_diff(o, pobs)
             if d:
@@ -245,6 +257,11 @@ def main(tier, seed):
     stats.extra["graph_states"], stats.extra["graph_edges"] = len(g.states), g.n_edges
     for cn in (list(CONCS) if thorough else [list(CONCS)[0], list(CONCS)[3], list(CONCS)[4], "str-tasks/fractional-prios"]):
         core.replay_graph_generic(g, Driver(cn), verdict, stats)
+    # histories on ONE object per walk: states that are abstractly the same (an empty queue) but differ inside (entries of
+    # removed tasks still in the backend, counters) are reached over and over
+    wdrv = Driver(list(CONCS)[0])
+    wdrv.walk_mode = True
+    core.replay_walks(g, wdrv, verdict, stats, n_walks=1500 if thorough else 300, length=30, seed=seed)
     canary(stats)
     traces = record(400 if thorough else 80, 3000 if thorough else 400, seed)
     core.validate_traces_generic(SPECDIR, "PQTrace.tla", "PQTrace.cfg", traces, stats, verdict, Driver.subject,
